@@ -4,6 +4,7 @@ import re
 from .. import obs
 
 LEVEL = "exploration"
+SUITE_MONITOR = True      # also judge the repository's own tests/doctests through rv/monitors.py
 RULE = ("Random and enumerated run layouts (>= 1 run) over a small alphabet (letters, space, "
         "comma, newline, tab, sharp s) x a curated list of str methods x an argument pool "
         "(separators present/absent/adjacent/at the ends, widths below/at/above the length, fill "
